@@ -45,6 +45,14 @@ structure Decl where
   signer : Bool
   writable : Bool
 
+/-- The pending `Init<…>` wrapper: type, target, cached borsh value, `needed_init` flag. -/
+structure Held where
+  tyName : String
+  ty : AcctType
+  target : Target
+  wrapper : Option (List Nat)
+  flag : Bool
+
 structure DS where
   rent : Nat × Nat := (3480, 2)
   htab : List (List Nat × Option Key) := []
@@ -54,8 +62,8 @@ structure DS where
   funder : Option Funder := none
   /-- the context cache: every `cache` line is one `set_funder` / `set_recipient` call -/
   cache : Cache := {}
-  /-- the last successfully init'ed set: type, target, cached borsh value -/
-  pending : Option (AcctType × Key × Option (List Nat)) := none
+  /-- the decoded `Init` wrapper kept between ops -/
+  pending : Option Held := none
 
 def DS.declared (s : DS) (k : Key) : Bool := s.decls.any (·.key == k)
 
@@ -229,22 +237,48 @@ def stepCore (s : DS) (toks : List String) : DS × String :=
             let (r, st) := initValidate s.env ty (mode = "ifneeded") target fa enc { w := s.w, log := [] }
             let s := { s with w := st.w }
             let wrapper := wrapperAfterInit s0.env ty (mode = "ifneeded") target fa enc { w := s0.w, log := [] } decoded
+            let held : Held := { tyName, ty, target, wrapper, flag := flagAfter false r }
             match r with
             | .ok needed =>
-              ({ s with pending := some (ty, tkey, wrapper) },
+              ({ s with pending := some held },
                s!"ok needed={showBool needed} cpis={showLog st.log}")
-            -- the decoded set survives a failed validation: its cleanup can still be run
-            | .err e => ({ s with pending := some (ty, tkey, wrapper) }, showErr e ++ " cpis=" ++ showLog st.log)
+            -- the decoded set survives a failed validation: it can be cleaned up / validated again
+            | .err e => ({ s with pending := some held }, showErr e ++ " cpis=" ++ showLog st.log)
             | .panic => (s, "panic cpis=" ++ showLog st.log)
     | _, _, _ => (s, "bad-op")
   | ["cleanup"] =>
     match s.pending with
     | none => (s, "bad-op")
-    | some (ty, tkey, cached) =>
+    | some h =>
       let s := { s with pending := none }
-      match ty.kind with
+      match h.ty.kind with
       | .zc => (s, "ok")
-      | .borsh => ({ s with w := serializeBorsh s.env ty tkey cached s.w }, "ok")
+      | .borsh => ({ s with w := serializeBorsh s.env h.ty h.target.key h.wrapper s.w }, "ok")
+  | ["needed"] =>
+    match s.pending with
+    | none => (s, "bad-op")
+    | some h => (s, showBool h.flag)
+  | "reinit" :: mode :: how :: rest =>
+    -- the same wrapper (or a clone: same state) validated again with the default initial value
+    if ¬ (rest = [] ∨ rest = ["clone"]) ∨ ¬ (mode = "create" ∨ mode = "ifneeded")
+        ∨ ¬ (how = "arg" ∨ how = "cached") ∨ (how = "arg" ∧ s.funder.isNone) then (s, "bad-op")
+    else match s.pending with
+    | none => (s, "bad-op")
+    | some h =>
+      let fa : FunderArg := if how = "arg" then
+          (match s.funder with
+           | some f => .arg f
+           | none => .cached none)
+        else .cached s.cache.funder
+      let enc := defaultValue h.tyName
+      let st0 : St := { w := s.w, log := [] }
+      let (r, st) := initValidate s.env h.ty (mode = "ifneeded") h.target fa enc st0
+      let wrapper := wrapperAfterInit s.env h.ty (mode = "ifneeded") h.target fa enc st0 h.wrapper
+      let s := { s with w := st.w, pending := some { h with wrapper, flag := flagAfter h.flag r } }
+      match r with
+      | .ok needed => (s, s!"ok needed={showBool needed} cpis={showLog st.log}")
+      | .err e => (s, showErr e ++ " cpis=" ++ showLog st.log)
+      | .panic => (s, "panic cpis=" ++ showLog st.log)
   | ["clean", tyName, opName, tkey, how, newval] =>
     let op? : Option CleanOp := match opName with
       | "normalize" => some .normalize
